@@ -303,6 +303,27 @@ var ruleZone = &Rule{
 						if !p.dependsOnTZ(r.Results[0], tz) {
 							probs = append(probs, "the zone-less operand is turned into an instant without consulting the time zone carried by the context (no call reaching TZFromContext)")
 						}
+						// direction: the zone-less operand is lifted to an instant; the
+						// zone-aware one is never flattened to a wall-clock reading
+						// (two instants an hour apart read the same in a DST overlap)
+						var calls []*ssa.Call
+						sliceCalls(r.Results[0], map[ssa.Value]bool{}, &calls)
+						for _, c := range calls {
+							reaches := false
+							for _, f := range p.calleesOf(c) {
+								if tz[f] {
+									reaches = true
+								}
+							}
+							if !reaches || len(c.Call.Args) == 0 {
+								continue
+							}
+							if pt, ok := c.Call.Args[0].Type().(*types.Pointer); ok {
+								if n, ok := pt.Elem().(*types.Named); ok && n.Obj().Pkg() != nil && n.Obj().Pkg().Path() == pkgTypes && zoned[name(n)] {
+									probs = append(probs, "the zone-aware operand is converted with the context zone ("+calleeName(&c.Call)+") instead of the zone-less one: instants are compared as wall-clock readings, which coincide for different instants where the zone repeats an hour")
+								}
+							}
+						}
 					}
 				}
 				if three == 0 {
@@ -333,7 +354,7 @@ func init() {
 	register(ruleZone)
 	addProp(&PropSpec{
 		ID:          "C17",
-		Rules:       []string{"R-ZONE", "R-HARD", "R-CMPMATRIX-DT", "R-PREDLOOP", "R-PAIR-C", "R-CTXZONE", "R-EMPTYPROD"},
+		Rules:       []string{"R-ZONE", "R-HARD", "R-CMPMATRIX-DT", "R-PREDLOOP", "R-PAIR-C", "R-CTXZONE", "R-EMPTYPROD", "R-LAYOUT"},
 		Explanation: "The time-zone rules as shapes of the 5×5 cast and comparison matrices: each cell is walked with the source type fixed (abstract interpretation); a cell that crosses zone-awareness must be guarded by the WithTZ option, fail with a non-suppressible error otherwise, and compute its result through a call that reaches the context's time zone; cells that do not cross never raise that error; both matrices are exhaustive over the five types.",
 		Decided: []string{"R-ZONE: guard, hard error and context-zone dependence of every crossing cast/compare cell; no tz error in non-crossing cells",
 			"R-HARD: the tz errors are built directly on ErrExecution", "R-CMPMATRIX-DT: comparable iff both time-only or both date-bearing (25 cells)", "R-ZONE also reports a cast or comparison switch that lacks an arm for one of the five types"},
